@@ -252,6 +252,30 @@ pub fn apply_transform(kind: EngineKind, p: &TransformParams, buf: &mut [[u8; 64
     }
 }
 
+/// 64-byte blocks that start `off` bytes into an allocation: `[u8; 64]` has
+/// alignment 1, so shard storage need not be aligned to anything (a field
+/// behind a header, a sub-slice of a byte buffer) - the allocator's 16-byte
+/// alignment of a `Vec<[u8; 64]>` is a coincidence an engine must not rely on.
+pub struct Misaligned {
+    raw: Vec<u8>,
+    off: usize,
+    blocks: usize,
+}
+
+impl Misaligned {
+    pub fn from_blocks(src: &[[u8; 64]], off: usize) -> Misaligned {
+        let mut raw = vec![0xA5u8; off + 64 * src.len() + 1];
+        raw[off..off + 64 * src.len()].copy_from_slice(src.as_flattened());
+        Misaligned { raw, off, blocks: src.len() }
+    }
+    pub fn blocks_mut(&mut self) -> &mut [[u8; 64]] {
+        self.raw[self.off..self.off + 64 * self.blocks].as_chunks_mut::<64>().0
+    }
+    pub fn blocks(&self) -> &[[u8; 64]] {
+        self.raw[self.off..self.off + 64 * self.blocks].as_chunks::<64>().0
+    }
+}
+
 /// A transform whose working set (size x blocks x 64 bytes) is 64-160 MiB.
 pub fn huge_transform(rng: &mut Rng) -> TransformParams {
     let n = *rng.pick(&[1u32, 2, 5, 10, 14]);
@@ -284,9 +308,20 @@ fn transform_case_with(rng: &mut Rng, out: &mut CaseOut, p: TransformParams, eng
     // which shards are contract-defined
     let defined_end = if p.inverse { p.size } else { p.truncated };
     let engines: Vec<EngineKind> = std::iter::once(EngineKind::Naive).chain(engines.iter().copied()).collect();
+    // a quarter of the cases: the shards do not start at an aligned address
+    let off = if input.len() <= 1 << 16 && rng.chance(1, 4) { *rng.pick(&[1usize, 8, 17, 24, 33, 40, 63]) } else { 0 };
+    if off != 0 {
+        out.tag("misaligned-shard-storage");
+    }
     for kind in engines {
         let mut buf = input.clone();
-        apply_transform(kind, &p, &mut buf);
+        if off != 0 {
+            let mut m = Misaligned::from_blocks(&input, off);
+            apply_transform(kind, &p, m.blocks_mut());
+            buf.copy_from_slice(m.blocks());
+        } else {
+            apply_transform(kind, &p, &mut buf);
+        }
         out.evals += 1;
         // confinement: nothing outside [pos, pos+size) changes
         for s in (0..p.pos).chain(p.pos + p.size..p.shard_count) {
@@ -355,9 +390,19 @@ fn mul_case(rng: &mut Rng, log_m: u16, out: &mut CaseOut) {
     let input = buf.clone();
     let mut reference = input.clone();
     codec::dyn_engine(EngineKind::Naive).mul(&mut reference[1..=blocks], log_m);
+    let off = if rng.chance(1, 3) { *rng.pick(&[1usize, 8, 17, 24, 33, 40, 63]) } else { 0 };
+    if off != 0 {
+        out.tag("misaligned-shard-storage");
+    }
     for kind in EngineKind::all() {
         let mut b = input.clone();
-        codec::dyn_engine(kind).mul(&mut b[1..=blocks], log_m);
+        if off != 0 {
+            let mut m = Misaligned::from_blocks(&input, off);
+            codec::dyn_engine(kind).mul(&mut m.blocks_mut()[1..=blocks], log_m);
+            b.copy_from_slice(m.blocks());
+        } else {
+            codec::dyn_engine(kind).mul(&mut b[1..=blocks], log_m);
+        }
         out.evals += 1;
         if b[0] != input[0] || (tail == 1 && b[blocks + 1] != input[blocks + 1]) {
             out.violate(
